@@ -1049,11 +1049,13 @@ func (b *BootGuard) CreateIBBSegments(seElement uint8, flags uint16, imagepath s
 			}
 		}
 		ibbElements = make([]ibbElement, ibbCount)
-		for idx, entry := range fitentries {
+		idx := 0
+		for _, entry := range fitentries {
 			if entry.GetEntryBase().Headers.Type() == fit.EntryTypeBIOSStartupModuleEntry {
 				ibbElements[idx].Base = uint32(entry.GetEntryBase().Headers.Address.Pointer())
 				ibbElements[idx].Size = entry.GetEntryBase().Headers.Size.Uint32() << 4
 				ibbElements[idx].Flags = flags
+				idx++
 			}
 		}
 	} else {
@@ -1071,7 +1073,8 @@ func (b *BootGuard) CreateIBBSegments(seElement uint8, flags uint16, imagepath s
 			}
 		}
 		ibbElements = make([]ibbElement, ibbCount)
-		for idx, seg := range img.Segs {
+		idx := 0
+		for _, seg := range img.Segs {
 			switch seg.GetFile().Name {
 			case
 				"fspt.bin",
@@ -1081,6 +1084,7 @@ func (b *BootGuard) CreateIBBSegments(seElement uint8, flags uint16, imagepath s
 				ibbElements[idx].Base = uint32(flashBase) + cbfsbaseaddr + seg.GetFile().RecordStart + seg.GetFile().SubHeaderOffset
 				ibbElements[idx].Size = seg.GetFile().Size
 				ibbElements[idx].Flags = flags
+				idx++
 			}
 		}
 	}
